@@ -53,6 +53,12 @@ def strategy():
                 pos = draw(st.integers(1, len(lines)))
                 lines.insert(pos, b"   " + draw(st.sampled_from([b"devnull", b"file:@OUT@/log", b"x", b"noop", b"%{pid}"])))
                 feats.append("continuation")
+            if draw(st.sampled_from([False, False, False, False, True])):
+                # an error raised INSIDE the error handler's own output call: error logging on, and an output that cannot format what it is
+                # handed (syslog ident template beyond its 255-byte buffer)
+                lines = [l for l in lines if not l.startswith((b"output", b"syslog_ident", b"error_logging"))] + \
+                        [b"error_logging = yes", b"output = devlog", b"syslog_ident = " + draw(st.sampled_from([b"i" * 255, b"i" * 256, b"i" * 300, b"%{snoopy_literal:" + b"j" * 80 + b"}" * 1 + (b"%{snoopy_literal:" + b"k" * 80 + b"}") * 3]))]
+                feats.append("error-inside-error-handler")
             if draw(st.sampled_from([False, False, False, True])):
                 # a file that is syntactically broken somewhere: options before and after the bad line are still parsed
                 bad = draw(st.sampled_from([b"this line has neither an equals sign nor a colon", b"[section header without the bracket",
